@@ -6,7 +6,8 @@ import glob, json, os
 MISSED_FIRST = {"C06-a-symbol-order", "C08-a-uniform-parens", "C13-a-exp-existence", "C14-a-init-value", "C15-a-name-collision", "C18-a-single-info-pass", "C20-a-value-hash",
                 "C01-b-and-implied", "C02-b-abstracted-vars", "C03-b-binary-range", "C04-b-valid-from", "C06-b-param-named-n", "C08-b-beta-mgf-scale", "C09-b-neq-guard-mark",
                 "C11-b-cornish-fisher-weights", "C12-b-weight-cache", "C13-b-reference-order", "C14-b-zero-multiplier", "C17-b-exact-flag", "C19-b-const-simult", "C20-b-shared-support",
-                "C02-c-float-alias", "C03-c-shared-context", "C12-c-shared-initial-state", "C14-c-effective-cache", "C17-c-moments-flag", "C19-c-decimal-condition"}
+                "C02-c-float-alias", "C03-c-shared-context", "C12-c-shared-initial-state", "C14-c-effective-cache", "C17-c-moments-flag", "C19-c-decimal-condition",
+                "C06-c-lattice-cache", "C08-c-laplace-scale", "C11-c-shared-cf-cache", "C13-c-choice-constant", "C15-c-helper-name-clash", "C16-c-faccin-height"}
 rows = []
 for d in sorted(glob.glob("/verif/seeded/*/")):
     mp = d + "meta.json"
